@@ -235,7 +235,7 @@ Fixpoint upd (l : list N) (i : nat) (v : N) : list N :=
   end.
 
 (* the inner run: for _ in 0..len { f = read; F[sym] = f; sym += 1 } *)
-Fixpoint read_run (n : nat) (bs : list N) (sym : N) (F : list N) : res (N * list N * list N) :=
+Fixpoint read_run (checked : bool) (n : nat) (bs : list N) (sym : N) (F : list N) : res (N * list N * list N) :=
   match n with
   | O => Ok (sym, F, bs)
   | S n' =>
@@ -243,13 +243,14 @@ Fixpoint read_run (n : nat) (bs : list N) (sym : N) (F : list N) : res (N * list
       | Panic x => Panic x
       | Err => Err
       | Ok (f, bs1) =>
-          if sym =? 255 then Panic S_SYM_ADD
-          else read_run n' bs1 (sym + 1) (upd F (N.to_nat sym) f)
+          (* after the repair: sym = sym.checked_add(1).ok_or(InvalidData)?  (before: sym += 1) *)
+          if sym =? 255 then (if checked then Err else Panic S_SYM_ADD)
+          else read_run checked n' bs1 (sym + 1) (upd F (N.to_nat sym) f)
       end
   end.
 
 (* the outer loop; fuel = number of input bytes (each turn consumes at least two) *)
-Fixpoint read_freqs (fuel : nat) (bs : list N) (sym prev : N) (F : list N) : res (list N * list N) :=
+Fixpoint read_freqs (checked : bool) (fuel : nat) (bs : list N) (sym prev : N) (F : list N) : res (list N * list N) :=
   match fuel with
   | O => Err
   | S fu =>
@@ -266,22 +267,31 @@ Fixpoint read_freqs (fuel : nat) (bs : list N) (sym prev : N) (F : list N) : res
                 match bs2 with
                 | [] => Err
                 | len :: bs3 =>
-                    match read_run (N.to_nat len) bs3 sym' F1 with
+                    match read_run checked (N.to_nat len) bs3 sym' F1 with
                     | Panic x => Panic x
                     | Err => Err
-                    | Ok (sym'', F2, bs4) => read_freqs fu bs4 sym'' sym'' F2
+                    | Ok (sym'', F2, bs4) => read_freqs checked fu bs4 sym'' sym'' F2
                     end
                 end
-              else read_freqs fu bs2 sym' sym' F1
+              else read_freqs checked fu bs2 sym' sym' F1
           end
       end
   end.
 
-Definition read_frequencies (bs : list N) : res (list N * list N) :=
+Fixpoint sumN (l : list N) : N := match l with [] => 0 | x :: r => x + sumN r end.
+
+(* [checked = true]: the code after the repairs (checked symbol increment, validate_frequencies:
+   the table must add up to at most 4096); [checked = false]: the code before them *)
+Definition read_frequencies_with (checked : bool) (bs : list N) : res (list N * list N) :=
   match bs with
   | [] => Err
-  | sym :: r => read_freqs (S (length bs)) r sym sym (repeat 0 256)
+  | sym :: r =>
+      match read_freqs checked (S (length bs)) r sym sym (repeat 0 256) with
+      | Ok (F, rest) => if checked && (4096 <? sumN F) then Err else Ok (F, rest)
+      | other => other
+      end
   end.
+Definition read_frequencies := read_frequencies_with true.
 
 (* build_cumulative_frequencies: C[i+1] = C[i] + F[i] for i = 0..254, on u16 *)
 Fixpoint cumulative_ok (n : nat) (F : list N) (acc : N) : bool :=
@@ -308,7 +318,9 @@ Fixpoint table_sym (fuel : nat) (F : list N) (f : N) (sym : nat) : nat :=
   | S fu => if (Nat.ltb sym 255) && (cum_at F (S sym) <=? f) then table_sym fu F f (S sym) else sym
   end.
 
-Definition le32 (b0 b1 b2 b3 : N) : N := b0 + 256 * b1 + 65536 * b2 + 16777216 * b3.
+(* bytes are bytes: taken mod 256 *)
+Definition le32 (b0 b1 b2 b3 : N) : N :=
+  b0 mod 256 + 256 * (b1 mod 256) + 65536 * (b2 mod 256) + 16777216 * (b3 mod 256).
 
 (* state_renormalize: while s < 2^23 { s = (s << 8) | next byte } *)
 Fixpoint renorm (fuel : nat) (s : N) (bs : list N) : res N :=
@@ -325,8 +337,8 @@ Fixpoint renorm (fuel : nat) (s : N) (bs : list N) : res N :=
 
 (* rans_4x8::decode on  [0; csize; 1u32] ++ bs : order 0, uncompressed size 1 — the table is read,
    the cumulative and lookup tables built, four u32 states read, ONE symbol decoded with state 0 *)
-Definition rfreq (bs : list N) : res unit :=
-  match read_frequencies bs with
+Definition rfreq_with (checked : bool) (bs : list N) : res unit :=
+  match read_frequencies_with checked bs with
   | Panic x => Panic x
   | Err => Err
   | Ok (F, rest) =>
@@ -351,3 +363,7 @@ Definition rfreq (bs : list N) : res unit :=
         end
       else Panic S_CUM_ADD
   end.
+
+Definition rfreq := rfreq_with true.
+(* the decoder before the repairs *)
+Definition rfreq_v0 := rfreq_with false.
